@@ -92,7 +92,15 @@ DS == K("dstr")
 DeclsG == {EvoRemovedGone(Shape(<<DS, DS>>)), Shape(<<DS, STR, DS>>), EvoAddedLast(Shape(<<DS, DS>>))}
 HasDstr(X) == X.k = "struct" /\ \E i \in 1..Len(X.fields) : X.fields[i].t.k = "dstr"
 
-StructDecls == DeclsG \cup ShapesA \cup DeclsB \cup DeclsC \cup DeclsD \cup DeclsE \cup DeclsF
+\* H: wide records: more fields in one chunk than a signed byte can count (positions are bytes on the wire
+\* only for made-optional fields; plain fields beyond position 127 must simply work)
+WideName(i) == <<102, 48 + (i \div 100), 48 + ((i \div 10) % 10), 48 + (i % 10)>>     \* f000 .. f129
+WideD == StructT([i \in 1..130 |-> Fld(WideName(i - 1), U8, "plain", FALSE, <<>>)], <<>>)
+\* the field at position 128 (the last one the position byte can name) made optional
+WideOpt == [WideD EXCEPT !.fields[129].t = OptT(U8), !.fields[129].sp = "Option", !.steps = <<Stp("MadeOptional", WideName(128), <<>>)>>]
+DeclsH == {WideD, EvoAddedLast(WideD), EvoRemovedGone(WideD), WideOpt}
+
+StructDecls == DeclsG \cup DeclsH \cup ShapesA \cup DeclsB \cup DeclsC \cup DeclsD \cup DeclsE \cup DeclsF
                \cup {NamedT("RecList"), NamedT("RecTree"), NamedT("RecEnum")}
 
 -----------------------------------------------------------------------------
